@@ -1,7 +1,7 @@
 (* Correspondence cases for the symmetric primitives (mac, hkdf, aead streams). *)
 From Coq Require Import String.
 From Coq Require Import ZArith NArith List Bool.
-From Cose Require Import Lib.Base Lib.Sha2 Lib.Hmac Lib.Aes Lib.CbcMac Lib.Hkdf Model.Mac Model.HkdfAes.
+From Cose Require Import Lib.Base Lib.Sha2 Lib.Hmac Lib.Aes Lib.CbcMac Lib.Hkdf Model.Mac Model.HkdfAes Model.Aead.
 Import ListNotations.
 Open Scope Z_scope.
 
@@ -42,4 +42,16 @@ Definition check_hkdf_case (c : hkdf_case) : bool :=
       | Some o => ok && bytes_eqb o out
       | None => negb ok
       end
+  end.
+
+Inductive aead_case :=
+| AEnc (alg : Z) (key iv pt aad : bytes) (ok : bool) (ct : bytes)
+| ADec (alg : Z) (key iv ct aad : bytes) (ok : bool) (pt : bytes).
+
+Definition check_aead_case (c : aead_case) : bool :=
+  match c with
+  | AEnc alg k iv pt aad ok ct =>
+      opt_res_eqb (aead_encrypt alg k iv pt aad) ok ct
+      && (negb ok || match ref_seal alg k iv pt aad with Some r => bytes_eqb r ct | None => false end)
+  | ADec alg k iv ct aad ok pt => opt_res_eqb (aead_decrypt alg k iv ct aad) ok pt
   end.
